@@ -8,7 +8,7 @@ use std::cell::RefCell;
 use std::rc::Rc;
 use zmq_simrt as rt;
 
-pub const NATTACKS: u64 = 33;
+pub const NATTACKS: u64 = 34;
 
 fn be64(x: u64) -> Vec<u8> {
     x.to_be_bytes().to_vec()
@@ -132,6 +132,28 @@ fn attack(n: u64, ctx: &Ctx) -> (Vec<u8>, &'static str) {
             f.extend(rc::encode_msg(&[vec![], b"late".to_vec()]));
             (f, if n == 31 { "3000 bare READY commands and then a message" } else { "30000 READY commands with properties and then a message" })
         }
+        33 => {
+            // well-formed subscription traffic with filters of every relation to the topics the
+            // application publishes afterwards (shorter / longer than the topic, sorting before /
+            // after it, sharing a prefix with it, empty, 255 and 300 bytes, repeated, cancelled
+            // without having been made): what a publisher does per subscription runs on bytes the
+            // peer chose
+            let mut f = Vec::new();
+            let mut filters: Vec<Vec<u8>> = vec![vec![], b"AAAA".to_vec(), b"B".to_vec(), b"BB".to_vec(), b"C".to_vec(), vec![0], vec![0; 40], vec![0xff], vec![0xff; 9], vec![0xa5], vec![0xa5, 0x5a], vec![0xa5, 0x59, 0xff, 0xff, 0xff, 0xff, 0xff, 0xff, 0xff, 0xff, 0xff, 0xff, 0xff, 0xff, 0xff, 0xff, 0xff, 0xff, 0xff, 0xff, 0xff, 0xff], vec![0xa5, 0x5b], vec![b'Z'; 255], vec![b'A'; 300]];
+            filters.push(b"AAAA".to_vec());
+            for (i, t) in filters.iter().enumerate() {
+                let mut m = vec![1u8];
+                m.extend_from_slice(t);
+                f.extend(rc::encode_msg(&[m]));
+                if i % 4 == 3 {
+                    let mut u = vec![0u8];
+                    u.extend_from_slice(&filters[i - 1]);
+                    f.extend(rc::encode_msg(&[u]));
+                }
+            }
+            f.extend(rc::encode_msg(&[vec![0, b'n', b'o', b'n', b'e']]));
+            (f, "a series of well-formed subscriptions and cancellations with filters around the published topics")
+        }
         _ => {
             let mut f = Vec::new();
             for i in 0..1500u32 {
@@ -226,6 +248,13 @@ fn run_attack_side(ctx: &mut Ctx, kind: Kind, stage: u64, bytes: Vec<u8>, what: 
                     }
                 }
             } else if kind.has_send() {
+                if matches!(kind, Kind::Pub | Kind::Xpub) {
+                    // publishers also publish short topics: matching runs against every subscription
+                    // a peer has registered
+                    for t in [&b""[..], b"B", b"A", b"\xff", b"\xa5\x5a"] {
+                        let _ = sock.send(to_zmq(&[t.to_vec()])).await;
+                    }
+                }
                 let body = tagged(7, n, &[4]);
                 let msg = if kind == Kind::Router { vec![b"healthy".to_vec(), body[0].clone()] } else { body };
                 match sock.send(to_zmq(&msg)).await {
@@ -428,7 +457,7 @@ pub fn def() -> PropDef {
     PropDef {
         id: "C03",
         level: "exploration",
-        rule: "catalogue: the case index enumerates socket kind (9) x stage {first bytes, after a valid greeting, after a valid handshake} x 33 structure-aware attacks (long runs of well-formed commands after the handshake, truncated/oversized commands, property lengths beyond the frame, non-UTF-8 names, 64-bit sizes 2^31..2^64-1 on message and command frames, thousands of MORE frames in one segment, huge declared frames of which 9 KiB .. 1 MiB are really delivered, bad signature/version/mechanism, reserved flags, random bytes), first undisturbed then under drawn transport/schedule, with and without a closing attacker; alphabet: all 19607 strings of length <= 5 over {00,01,02,04,06,05,ff} x {after greeting, after handshake} (thorough: enumerated; quick: sampled); mutated: random mutations of a valid stream; a healthy peer exchanges tagged traffic before and after; oracles: no panic in any task or API call, worker process survives (stack overflow / abort are seen as signals by the driver), largest single allocation after the first hostile byte <= 256 KiB + 64 x bytes sent, healthy traffic still delivered; non-trivial = judgement reached; distinct = distinct (case, plan, schedule, transport)",
+        rule: "catalogue: the case index enumerates socket kind (9) x stage {first bytes, after a valid greeting, after a valid handshake} x 34 structure-aware attacks (a series of well-formed subscriptions and cancellations with filters around the topics published afterwards, long runs of well-formed commands after the handshake, truncated/oversized commands, property lengths beyond the frame, non-UTF-8 names, 64-bit sizes 2^31..2^64-1 on message and command frames, thousands of MORE frames in one segment, huge declared frames of which 9 KiB .. 1 MiB are really delivered, bad signature/version/mechanism, reserved flags, random bytes), first undisturbed then under drawn transport/schedule, with and without a closing attacker; alphabet: all 19607 strings of length <= 5 over {00,01,02,04,06,05,ff} x {after greeting, after handshake} (thorough: enumerated; quick: sampled); mutated: random mutations of a valid stream; a healthy peer exchanges tagged traffic before and after; oracles: no panic in any task or API call, worker process survives (stack overflow / abort are seen as signals by the driver), largest single allocation after the first hostile byte <= 256 KiB + 64 x bytes sent, healthy traffic still delivered; non-trivial = judgement reached; distinct = distinct (case, plan, schedule, transport)",
         assumptions: &["run thread stack 2 MiB (tokio's worker default) and the library built unoptimised with debug assertions: both are documented parameters of the stack-depth clause", "allocation failure itself is not injected; the size of requests is judged"],
         strata: vec![
             Stratum { name: "catalogue", quick: 27 * NATTACKS * 8, thorough: (27 * NATTACKS * 200) * 10, exhaustive: (true, true), run: catalogue, what: "kind x stage x attack catalogue" },
